@@ -10,7 +10,7 @@ BUDGET = {"quick": 55, "thorough": 900}
 QUICK_CASES = 1000  # generator items in the quick tier (fixed amount of work; BUDGET is then only a safety cap)
 FLOOR = {"quick": 300, "thorough": 2000}
 TIMEOUT = 120
-REQUIRED_OBS = ["steps", "has_service_checks", "calls_made", "calls_ran_expected_generation", "not_found_as_expected", "responses_checked", "outgoing_calls_checked", "redefinitions", "rejected_declarations"]
+REQUIRED_OBS = ["steps", "has_service_checks", "calls_made", "calls_ran_expected_generation", "not_found_as_expected", "responses_checked", "outgoing_calls_checked", "redefinitions", "rejected_declarations", "overlapping_call_pairs"]
 RULE = (
     "random histories over two script files and a dynamically redefined global function: @service functions with 1-2 names (stacked "
     "decorators), names shared inside a file and across files (second context must be refused), supports_response none/optional/only; "
@@ -108,7 +108,11 @@ class Model:
                 sup = "" if fn["sup"] == "none" else f", supports_response={fn['sup']!r}"
                 lines.append(f"@service('pyscript.{name}'{sup})")
             lines.append(f"def {fn['fn']}(**kw):")
+            lines.append("    x0 = kw.get('x')")
             lines.append(f"    vf.rec('svc', fn={fn['fn']!r}, gen={fn['gen']}, kw=kw)")
+            lines.append("    if kw.get('slow'):")
+            lines.append("        task.sleep(kw['slow'])")
+            lines.append(f"        vf.rec('svc_end', fn={fn['fn']!r}, x0=x0, x_now=kw.get('x'))")
             lines.append(f"    return {{'gen': {fn['gen']}, 'x': kw.get('x')}}")
             lines.append("")
         if f == "a.py":
@@ -122,7 +126,11 @@ def redefine(gen=None):
     global dyn
     @service('pyscript.dyn', supports_response='optional')
     def dyn(**kw):
+        x0 = kw.get('x')
         vf.rec('svc', fn='dyn', gen=gen, kw=kw)
+        if kw.get('slow'):
+            task.sleep(kw['slow'])
+            vf.rec('svc_end', fn='dyn', x0=x0, x_now=kw.get('x'))
         return {'gen': gen, 'x': kw.get('x')}
 
 @service
@@ -205,6 +213,23 @@ def run_case(case):
                 obs["responses_checked"] += 1
                 if resp != {"gen": gen, "x": x}:
                     viol.append({"mech": "service_wrong_response", "msg": f"{label}: pyscript.{name} returned {resp} expected gen {gen} x {x}"})
+            if sup != "none" and not viol and rng.random() < 0.5:
+                # two overlapping calls of the same service: the second starts while the first is suspended and ends before it
+                xa, xb = x + 1, x + 2
+                start = len(w.rec)
+                # nested (B ends first) or crossing (A resumes while B is still suspended)
+                sa_, sb_ = rng.choice([(2, 1), (1, 1), (1, 2)])
+                ta = w.hass.async_create_task(w.hass.services.async_call("pyscript", name, {"x": xa, "slow": sa_}, blocking=True, return_response=True))
+                await w.advance(0.5)
+                tb = w.hass.async_create_task(w.hass.services.async_call("pyscript", name, {"x": xb, "slow": sb_}, blocking=True, return_response=True))
+                await w.advance(3.0)
+                await w.settle()
+                ra = ta.result() if ta.done() and not ta.exception() else repr(ta.exception() if ta.done() else "not finished")
+                rb = tb.result() if tb.done() and not tb.exception() else repr(tb.exception() if tb.done() else "not finished")
+                ends = sorted((r["x0"], r["x_now"]) for r in w.rec[start:] if r["tag"] == "svc_end")
+                obs["overlapping_call_pairs"] += 1
+                if ra != {"gen": gen, "x": xa} or rb != {"gen": gen, "x": xb} or ends != [(xa, xa), (xb, xb)]:
+                    viol.append({"mech": "overlapping_calls_mixed_up", "msg": f"{label}: overlapping calls of pyscript.{name} with x={xa} and x={xb}: responses {ra} / {rb}, (x at start, x at end) per run {ends}"})
 
     async def main(w):
         from homeassistant.core import SupportsResponse
